@@ -1,30 +1,269 @@
+// Harness for C15: the four caches in front of persistent data, the real code
+// against the Lean cache machines.
+//
+//   u.*  blockchain.UTXOCache (reference FIFO+map, tx cache) over an in-memory
+//        transaction store (IUTXOCacheStore), MaxReferenceSize set per history
+//   i.*  indexers.TxCache driven the way UnspentIndex.ConnectBlock /
+//        DisconnectBlock / FetchTx drive it (trim, setTxn, deleteTxn, GetTxn)
+//   b.*  ChainStoreFFLDB.GetBlock over a real ffldb (blocks stored write-once
+//        with StoreBlock, as dbStoreBlock does)
+//   s.*  p2p.WriteMessage over net.Pipe with block messages
 package main
 
 import (
 	"bytes"
+	"errors"
 	"fmt"
 	"io"
 	"net"
+	"os"
+	"sort"
+	"strconv"
+	"strings"
 	"time"
 
+	"elaverif/harness/hx"
+
+	"github.com/elastos/Elastos.ELA/blockchain"
+	"github.com/elastos/Elastos.ELA/blockchain/indexers"
 	"github.com/elastos/Elastos.ELA/common"
+	"github.com/elastos/Elastos.ELA/common/config"
+	"github.com/elastos/Elastos.ELA/core/contract/program"
+	transaction2 "github.com/elastos/Elastos.ELA/core/transaction"
 	"github.com/elastos/Elastos.ELA/core/types"
 	common2 "github.com/elastos/Elastos.ELA/core/types/common"
+	"github.com/elastos/Elastos.ELA/core/types/functions"
+	"github.com/elastos/Elastos.ELA/core/types/interfaces"
 	"github.com/elastos/Elastos.ELA/core/types/payload"
+	"github.com/elastos/Elastos.ELA/database"
 	"github.com/elastos/Elastos.ELA/p2p"
 )
 
+func atoi(s string) int {
+	v, err := strconv.Atoi(s)
+	if err != nil {
+		panic("harness: bad int " + s)
+	}
+	return v
+}
+func csv(s string) []string {
+	if s == "-" || s == "" {
+		return nil
+	}
+	return strings.Split(s, ",")
+}
+func joinC(ss []string) string {
+	if len(ss) == 0 {
+		return "-"
+	}
+	return strings.Join(ss, ",")
+}
+
+var inited bool
+
+func initOnce() {
+	if inited {
+		return
+	}
+	inited = true
+	functions.GetTransactionByTxType = transaction2.GetTransaction
+	functions.GetTransactionByBytes = transaction2.GetTransactionByBytes
+	functions.CreateTransaction = transaction2.CreateTransaction
+	functions.GetTransactionParameters = transaction2.GetTransactionparameters
+	config.DefaultParams = *config.GetDefaultParams()
+}
+
+func mkTx(tag string, id int, outs []int, lock uint32, nin int) interfaces.Transaction {
+	var outputs []*common2.Output
+	for _, v := range outs {
+		outputs = append(outputs, &common2.Output{Value: common.Fixed64(v)})
+	}
+	var inputs []*common2.Input
+	for i := 0; i < nin; i++ {
+		inputs = append(inputs, &common2.Input{Previous: common2.OutPoint{Index: uint16(i)}})
+	}
+	attrs := []*common2.Attribute{{Usage: common2.Nonce, Data: []byte(tag + strconv.Itoa(id))}}
+	return functions.CreateTransaction(common2.TxVersion09, common2.TransferAsset, 0, &payload.TransferAsset{}, attrs, inputs, outputs, lock, []*program.Program{})
+}
+
+// ---------------------------------------------------------------- A. UTXOCache
+
+type txStore struct{ m map[common.Uint256]interfaces.Transaction }
+
+func (s *txStore) GetTransaction(id common.Uint256) (interfaces.Transaction, uint32, error) {
+	if t, ok := s.m[id]; ok {
+		return t, 0, nil
+	}
+	return nil, 0, errors.New("leveldb: not found")
+}
+
+type uState struct {
+	store   *txStore
+	cache   *blockchain.UTXOCache
+	max     int
+	outs    map[int][]int // the harness's own record of the store (the uncached truth)
+	hashOf  map[int]common.Uint256
+	idOf    map[common.Uint256]int
+	unclean bool // the store lost a tx without the cache being cleaned (ReorganizeChain2 path)
+}
+
+var U *uState
+
+func uHash(id int) common.Uint256 {
+	if h, ok := U.hashOf[id]; ok {
+		return h
+	}
+	t := mkTx("u", id, nil, 0, 0)
+	h := t.Hash()
+	U.hashOf[id] = h
+	U.idOf[h] = id
+	return h
+}
+
+func uSnap() string {
+	var fifo []string
+	for e := U.cache.Inputs.Front(); e != nil; e = e.Next() {
+		in := e.Value.(common2.Input)
+		id, ok := U.idOf[in.Previous.TxID]
+		ids := "?"
+		if ok {
+			ids = strconv.Itoa(id)
+		}
+		fifo = append(fifo, fmt.Sprintf("%s:%d:%d", ids, in.Previous.Index, in.Sequence))
+	}
+	return fmt.Sprintf("fifo=%s nref=%d ntx=%d", joinC(fifo), len(U.cache.Reference), len(U.cache.TxCache))
+}
+
+var lastExpect string
+
+// ---------------------------------------------------------------- B. indexed tx cache
+
+type iState struct {
+	cache   *indexers.TxCache
+	vol     int
+	backing map[int][2]int // id → (height, payload): the index
+	tx      map[int]interfaces.Transaction
+	trimmed bool
+}
+
+var I *iState
+
+func iTx(id, payloadV int, cacheable bool) interfaces.Transaction {
+	nin := 0
+	if !cacheable {
+		nin = indexers.MaxCacheInputsCountPerTransaction + 1
+	}
+	t := mkTx("i", id, nil, uint32(payloadV), nin)
+	I.tx[id] = t
+	return t
+}
+
+func iHash(id int) common.Uint256 {
+	if t, ok := I.tx[id]; ok {
+		return t.Hash()
+	}
+	return mkTx("i-unknown", id, nil, 0, 0).Hash()
+}
+
+func iFetch(id int) (string, bool) {
+	if info := I.cache.GetTxn(iHash(id)); info != nil { // UnspentIndex.FetchTx: cache first …
+		return fmt.Sprintf("ok %d %d", info.BlockHeight, info.Txn.LockTime()), true
+	}
+	if b, ok := I.backing[id]; ok { // … then the index
+		return fmt.Sprintf("ok %d %d", b[0], b[1]), false
+	}
+	return "err notfound", false
+}
+
+func iTruth(id int) string {
+	if b, ok := I.backing[id]; ok {
+		return fmt.Sprintf("ok %d %d", b[0], b[1])
+	}
+	return "err notfound"
+}
+
+// ---------------------------------------------------------------- C. decoded block cache
+
+type bState struct {
+	dir    string
+	store  *blockchain.ChainStoreFFLDB
+	stored map[int]int
+	hashOf map[int]common.Uint256
+	idOf   map[common.Uint256]int
+}
+
+var B *bState
+var tmpDirs []string
+
+func mkBlock(id int, variant int) *types.DposBlock {
+	b := &types.Block{Header: common2.Header{Version: 0, Height: uint32(id), Nonce: uint32(id)}}
+	d := &types.DposBlock{Block: b}
+	if variant > 0 {
+		h := b.Hash()
+		d.HaveConfirm = true
+		d.Confirm = &payload.Confirm{Proposal: payload.DPOSProposal{Sponsor: []byte{byte(variant), 2, 3}, BlockHash: h, ViewOffset: uint32(variant), Sign: []byte{9}}}
+	}
+	return d
+}
+
+func bReset() {
+	if B != nil && B.store != nil {
+		B.store.Close()
+	}
+	dir, err := os.MkdirTemp("", "c15-blocks-")
+	if err != nil {
+		panic("harness: " + err.Error())
+	}
+	tmpDirs = append(tmpDirs, dir)
+	st, err := blockchain.NewChainStoreFFLDB(dir, &config.DefaultParams)
+	if err != nil {
+		panic("harness: open ffldb: " + err.Error())
+	}
+	B = &bState{dir: dir, store: st.(*blockchain.ChainStoreFFLDB), stored: map[int]int{}, hashOf: map[int]common.Uint256{}, idOf: map[common.Uint256]int{}}
+}
+
+func bHash(id int) common.Uint256 {
+	if h, ok := B.hashOf[id]; ok {
+		return h
+	}
+	h := mkBlock(id, 0).Block.Hash()
+	B.hashOf[id] = h
+	B.idOf[h] = id
+	return h
+}
+
+func bSnap() string {
+	fifo, keys := B.store.VerifBlockCache()
+	name := func(h common.Uint256) string {
+		if id, ok := B.idOf[h]; ok {
+			return strconv.Itoa(id)
+		}
+		return "?"
+	}
+	var f []string
+	for _, h := range fifo {
+		f = append(f, name(h))
+	}
+	var ks []int
+	for _, h := range keys {
+		ks = append(ks, B.idOf[h])
+	}
+	sort.Ints(ks)
+	var k []string
+	for _, v := range ks {
+		k = append(k, strconv.Itoa(v))
+	}
+	return fmt.Sprintf("fifo=%s keys=%s", joinC(f), joinC(k))
+}
+
+// ---------------------------------------------------------------- D. send cache
+
 type blockMsg struct{ b *types.DposBlock }
 
-func (m *blockMsg) CMD() string                  { return p2p.CmdBlock }
-func (m *blockMsg) MaxLength() uint32             { return 8 * 1024 * 1024 }
-func (m *blockMsg) Serialize(w io.Writer) error   { return m.b.Serialize(w) }
-func (m *blockMsg) Deserialize(r io.Reader) error { return m.b.Deserialize(r) }
-
-func mkBlock(n uint32, confirm *payload.Confirm) *types.DposBlock {
-	b := &types.Block{Header: common2.Header{Version: 0, Height: n, Nonce: n}}
-	return &types.DposBlock{Block: b, HaveConfirm: confirm != nil, Confirm: confirm}
-}
+func (m *blockMsg) CMD() string                   { return p2p.CmdBlock }
+func (m *blockMsg) MaxLength() uint32              { return 8 * 1024 * 1024 }
+func (m *blockMsg) Serialize(w io.Writer) error    { return m.b.Serialize(w) }
+func (m *blockMsg) Deserialize(r io.Reader) error  { return m.b.Deserialize(r) }
 
 func send(m *blockMsg) []byte {
 	c1, c2 := net.Pipe()
@@ -34,7 +273,7 @@ func send(m *blockMsg) []byte {
 		io.Copy(&buf, c2)
 		done <- buf.Bytes()
 	}()
-	err := p2p.WriteMessage(c1, 1, m, time.Second, func(msg p2p.Message) (*types.DposBlock, bool) {
+	err := p2p.WriteMessage(c1, 1, m, 5*time.Second, func(msg p2p.Message) (*types.DposBlock, bool) {
 		bm, ok := msg.(*blockMsg)
 		if !ok {
 			return nil, false
@@ -44,32 +283,368 @@ func send(m *blockMsg) []byte {
 	c1.Close()
 	out := <-done
 	if err != nil {
-		panic(err)
+		panic("harness: WriteMessage: " + err.Error())
 	}
 	return out[p2p.HeaderSize:]
 }
 
-func main() {
-	for i := 0; i < 50; i++ {
-		send(&blockMsg{mkBlock(uint32(i), nil)})
+var sIDOf = map[common.Uint256]int{}
+
+func sSnap() (string, int) {
+	hashes, confirms, entries := p2p.VerifSendCache()
+	b2s := func(b bool) string {
+		if b {
+			return "1"
+		}
+		return "0"
 	}
-	_, _, entries := p2p.VerifSendCache()
-	empty := 0
+	var fifo []string
+	for i, h := range hashes {
+		fifo = append(fifo, fmt.Sprintf("%d:%s", sIDOf[h], b2s(confirms[i])))
+	}
+	type oe struct {
+		id int
+		s  string
+	}
+	var outer []oe
 	for _, e := range entries {
-		if !e.HasConfirmed && !e.HasUnconfirmed {
-			empty++
+		var vs []string
+		if e.HasUnconfirmed {
+			vs = append(vs, "0")
+		}
+		if e.HasConfirmed {
+			vs = append(vs, "1")
+		}
+		outer = append(outer, oe{sIDOf[e.Hash], fmt.Sprintf("%d:%s", sIDOf[e.Hash], strings.Join(vs, "+"))})
+	}
+	sort.Slice(outer, func(i, j int) bool { return outer[i].id < outer[j].id })
+	var os_ []string
+	for _, o := range outer {
+		os_ = append(os_, o.s)
+	}
+	return fmt.Sprintf("fifo=%s outer=%s", joinC(fifo), joinC(os_)), len(entries)
+}
+
+// ---------------------------------------------------------------- exec
+
+func exec(t []string) string {
+	initOnce()
+	lastExpect = ""
+	switch t[0] {
+	case "reset":
+		return "ok"
+	case "u.reset":
+		max := atoi(t[1])
+		blockchain.MaxReferenceSize = max
+		st := &txStore{m: map[common.Uint256]interfaces.Transaction{}}
+		U = &uState{store: st, cache: blockchain.NewUTXOCache(st, &config.DefaultParams), max: max, outs: map[int][]int{},
+			hashOf: map[int]common.Uint256{}, idOf: map[common.Uint256]int{}}
+		return "ok"
+	case "u.put":
+		id := atoi(t[1])
+		var outs []int
+		for _, o := range csv(t[2]) {
+			outs = append(outs, atoi(o))
+		}
+		// the stored transaction carries the outputs; its id is the key (hash of the empty-output tx
+		// stands for the tx id so that re-putting other outputs models a different tx under one id)
+		tx := mkTx("u", id, outs, 0, 0)
+		U.store.m[uHash(id)] = tx
+		U.outs[id] = outs
+		return "ok"
+	case "u.del":
+		id := atoi(t[1])
+		delete(U.store.m, uHash(id))
+		delete(U.outs, id)
+		if len(U.cache.Reference) > 0 || len(U.cache.TxCache) > 0 {
+			U.unclean = true
+		}
+		return "ok"
+	case "u.clean":
+		U.cache.CleanCache()
+		U.unclean = false
+		return "ok " + uSnap()
+	case "u.cleantx":
+		U.cache.CleanTxCache()
+		return "ok " + uSnap()
+	case "u.ref":
+		var inputs []*common2.Input
+		expect := "ok"
+		var vals []string
+		for _, s := range csv(t[1]) {
+			p := strings.Split(s, ":")
+			id, idx, seq := atoi(p[0]), atoi(p[1]), atoi(p[2])
+			inputs = append(inputs, &common2.Input{Previous: common2.OutPoint{TxID: uHash(id), Index: uint16(idx)}, Sequence: uint32(seq)})
+			if expect == "ok" {
+				outs, ok := U.outs[id]
+				if !ok {
+					expect = "err notfound"
+				} else if idx >= len(outs) {
+					expect = "err range"
+				} else {
+					vals = append(vals, strconv.Itoa(outs[idx]))
+				}
+			}
+		}
+		if expect == "ok" {
+			expect = "ok " + joinC(vals)
+		}
+		lastExpect = expect
+		tx := functions.CreateTransaction(common2.TxVersion09, common2.TransferAsset, 0, &payload.TransferAsset{}, nil, inputs, nil, 0, nil)
+		refs, err := U.cache.GetTxReference(tx)
+		res := ""
+		if err != nil {
+			switch {
+			case strings.Contains(err.Error(), "out of range"):
+				res = "err range"
+			case strings.Contains(err.Error(), "not found"):
+				res = "err notfound"
+			default:
+				res = "err other"
+			}
+		} else {
+			var vs []string
+			for _, in := range inputs {
+				vs = append(vs, strconv.Itoa(int(refs[in].Value)))
+			}
+			res = "ok " + joinC(vs)
+		}
+		return res + " " + uSnap()
+	case "u.tx":
+		id := atoi(t[1])
+		if outs, ok := U.outs[id]; ok {
+			var vs []string
+			for _, o := range outs {
+				vs = append(vs, strconv.Itoa(o))
+			}
+			lastExpect = "ok " + joinC(vs)
+		} else {
+			lastExpect = "err notfound"
+		}
+		tx, err := U.cache.GetTransaction(uHash(id))
+		if err != nil {
+			return "err notfound " + uSnap()
+		}
+		var vs []string
+		for _, o := range tx.Outputs() {
+			vs = append(vs, strconv.Itoa(int(o.Value)))
+		}
+		return "ok " + joinC(vs) + " " + uSnap()
+	case "i.reset":
+		vol := atoi(t[1])
+		p := *config.GetDefaultParams()
+		p.TxCacheVolume = uint32(vol)
+		p.MemoryFirst = false
+		I = &iState{cache: indexers.NewTxCache(&p), vol: vol, backing: map[int][2]int{}, tx: map[int]interfaces.Transaction{}}
+		return "ok"
+	case "i.connect": // i.connect <height> <id:payload:cacheable,…> <spent ids>
+		h := atoi(t[1])
+		I.cache.VerifTrim()
+		for _, s := range csv(t[2]) {
+			p := strings.Split(s, ":")
+			id, pv, c := atoi(p[0]), atoi(p[1]), p[2] == "1"
+			I.cache.VerifSetTxn(uint32(h), iTx(id, pv, c))
+			I.backing[id] = [2]int{h, pv}
+		}
+		for _, s := range csv(t[3]) {
+			I.cache.VerifDeleteTxn(iHash(atoi(s)))
+		}
+		return fmt.Sprintf("ok len=%d", I.cache.VerifLen())
+	case "i.fill":
+		from, count, h := atoi(t[1]), atoi(t[2]), atoi(t[3])
+		for k := 0; k < count; k++ {
+			I.cache.VerifSetTxn(uint32(h), iTx(from+k, from+k, true))
+			I.backing[from+k] = [2]int{h, from + k}
+		}
+		return fmt.Sprintf("ok len=%d", I.cache.VerifLen())
+	case "i.disconnect":
+		for _, s := range csv(t[1]) {
+			id := atoi(s)
+			I.cache.VerifDeleteTxn(iHash(id))
+			delete(I.backing, id)
+		}
+		return fmt.Sprintf("ok len=%d", I.cache.VerifLen())
+	case "i.trim":
+		before := I.cache.VerifLen()
+		I.cache.VerifTrim()
+		if I.cache.VerifLen() != before {
+			I.trimmed = true
+		}
+		return fmt.Sprintf("ok len=%d", I.cache.VerifLen())
+	case "i.fetch":
+		id := atoi(t[1])
+		lastExpect = iTruth(id)
+		r, hit := iFetch(id)
+		if hit {
+			return r + " hit"
+		}
+		return r + " miss"
+	case "i.fetchv":
+		id := atoi(t[1])
+		lastExpect = iTruth(id)
+		r, _ := iFetch(id)
+		return r
+	case "b.reset":
+		bReset()
+		return "ok"
+	case "b.store":
+		id, c := atoi(t[1]), atoi(t[2])
+		blk := mkBlock(id, c)
+		h := bHash(id)
+		err := B.store.Update(func(dbTx database.Tx) error {
+			has, err := dbTx.HasBlock(h)
+			if err != nil || has {
+				return err
+			}
+			buf := new(bytes.Buffer)
+			if err := blk.Serialize(buf); err != nil {
+				return err
+			}
+			return dbTx.StoreBlock(h, buf.Bytes())
+		})
+		if err != nil {
+			panic("harness: store block: " + err.Error())
+		}
+		if _, ok := B.stored[id]; !ok {
+			B.stored[id] = c
+		}
+		return "ok"
+	case "b.get":
+		id := atoi(t[1])
+		if c, ok := B.stored[id]; ok {
+			lastExpect = fmt.Sprintf("ok %d %d", id, c)
+		} else {
+			lastExpect = "err notfound"
+		}
+		blk, err := B.store.GetBlock(bHash(id))
+		if err != nil {
+			return "err notfound " + bSnap()
+		}
+		c := 0
+		if blk.HaveConfirm {
+			c = int(blk.Confirm.Proposal.ViewOffset)
+		}
+		return fmt.Sprintf("ok %d %d %s", blk.Height, c, bSnap())
+	case "s.reset":
+		p2p.VerifResetSendCache()
+		return "ok"
+	case "s.write":
+		id, v := atoi(t[1]), atoi(t[2])
+		blk := mkBlock(id, v)
+		sIDOf[blk.Block.Hash()] = id
+		got := send(&blockMsg{blk})
+		sent := -1
+		for cand := 0; cand <= 2; cand++ {
+			var buf bytes.Buffer
+			mkBlock(id, cand).Serialize(&buf)
+			if bytes.Equal(buf.Bytes(), got) {
+				sent = cand
+			}
+		}
+		snap, _ := sSnap()
+		return fmt.Sprintf("sent=%d %s", sent, snap)
+	}
+	panic("harness: unknown op " + t[0])
+}
+
+// ---------------------------------------------------------------- oracle
+
+func field(out, name string) string {
+	for _, f := range strings.Fields(out) {
+		if strings.HasPrefix(f, name+"=") {
+			return f[len(name)+1:]
 		}
 	}
-	fmt.Println("outer entries after 50 distinct blocks:", len(entries), "empty:", empty)
-	// two confirms for one block
-	h := mkBlock(7, nil).Block.Hash()
-	cA := &payload.Confirm{Proposal: payload.DPOSProposal{Sponsor: []byte{1, 2, 3}, BlockHash: h, ViewOffset: 0, Sign: []byte{9}}}
-	cB := &payload.Confirm{Proposal: payload.DPOSProposal{Sponsor: []byte{4, 5, 6}, BlockHash: h, ViewOffset: 1, Sign: []byte{8}}}
-	p2p.VerifResetSendCache()
-	a := send(&blockMsg{mkBlock(7, cA)})
-	bb := send(&blockMsg{mkBlock(7, cB)})
-	var fresh bytes.Buffer
-	mkBlock(7, cB).Serialize(&fresh)
-	fmt.Println("second confirm: sent == first's bytes:", bytes.Equal(a, bb), " sent == own serialization:", bytes.Equal(bb, fresh.Bytes()))
-	_ = common.Uint256{}
+	return ""
+}
+
+func answer(out string) string {
+	f := strings.Fields(out)
+	var keep []string
+	for _, x := range f {
+		if strings.Contains(x, "=") || x == "hit" || x == "miss" {
+			break
+		}
+		keep = append(keep, x)
+	}
+	return strings.Join(keep, " ")
+}
+
+func oracle(t []string, out string) *hx.Violation {
+	bad := func(kind, detail string) *hx.Violation { return &hx.Violation{Kind: kind, Detail: detail} }
+	switch t[0] {
+	case "u.ref", "u.tx":
+		if !U.unclean && answer(out) != lastExpect {
+			return bad("utxo-cache-stale", "cached answer "+answer(out)+" but the store says "+lastExpect)
+		}
+		n := len(csv(field(out, "fifo")))
+		lim := U.max
+		if lim < 1 {
+			lim = 1
+		}
+		if n > lim {
+			return bad("utxo-fifo-over-limit", fmt.Sprintf("%d references queued, limit %d", n, lim))
+		}
+		if atoi(field(out, "nref")) > n {
+			return bad("utxo-ref-not-queued", "more cached references than queue entries")
+		}
+		if atoi(field(out, "ntx")) > U.max+1 {
+			return bad("utxo-txcache-over-limit", fmt.Sprintf("%s transactions cached, limit %d", field(out, "ntx"), U.max+1))
+		}
+	case "i.fetch", "i.fetchv":
+		if answer(out) != lastExpect {
+			return bad("txcache-stale", "FetchTx answers "+answer(out)+" but the index says "+lastExpect)
+		}
+	case "i.trim", "i.connect":
+		if t[0] == "i.trim" && atoi(field(out, "len")) > I.vol+indexers.TrimmingInterval {
+			return bad("txcache-over-limit", "after trim "+field(out, "len")+" entries")
+		}
+	case "b.get":
+		if answer(out) != lastExpect {
+			return bad("blockcache-stale", "GetBlock answers "+answer(out)+" but the store has "+lastExpect)
+		}
+		if len(csv(field(out, "fifo"))) > 2 || len(csv(field(out, "keys"))) > 2 {
+			return bad("blockcache-over-limit", out)
+		}
+	case "s.write":
+		if field(out, "sent") != t[2] {
+			return bad("send-cache-wrong-confirm", fmt.Sprintf("block %s variant %s was sent as variant %s (cached bytes of another confirm)", t[1], t[2], field(out, "sent")))
+		}
+		if len(csv(field(out, "outer"))) > 2 || len(csv(field(out, "fifo"))) > 2 {
+			return bad("send-cache-over-limit", out)
+		}
+	}
+	return nil
+}
+
+func nontrivial(t []string, out string) bool {
+	return strings.Contains(out, "hit") || (strings.HasPrefix(t[0], "u.") && strings.HasPrefix(out, "ok ")) ||
+		strings.HasPrefix(t[0], "b.get") || strings.HasPrefix(t[0], "s.write")
+}
+
+func bucket(t []string, out string) string {
+	f := strings.Fields(out)
+	k := t[0]
+	if len(f) > 0 && (f[0] == "ok" || f[0] == "err") {
+		k += "/" + f[0]
+		if f[0] == "err" && len(f) > 1 {
+			k += " " + f[1]
+		}
+	}
+	if strings.HasSuffix(out, " hit") {
+		k += "+hit"
+	}
+	return k
+}
+
+func main() {
+	defer func() {
+		if B != nil && B.store != nil {
+			B.store.Close()
+		}
+		for _, d := range tmpDirs {
+			os.RemoveAll(d)
+		}
+	}()
+	hx.Main(&hx.Prop{Name: "C15", Gen: gen, Exec: exec, Oracle: oracle, Nontrivial: nontrivial, Bucket: bucket, Stateful: true})
 }
